@@ -578,6 +578,148 @@ func selfWriteFacts(p *pkgInfo) []selfWriteFact {
 	return out
 }
 
+// ------------------------------------------------------------ which results are written to
+
+// resultMutationFact: a call of a mutating *Result method, with where the receiver variable comes from
+type resultMutationFact struct {
+	Func, Method, Recv, Origin string
+}
+
+var mutatingResultMethods = map[string]bool{"Inc": true, "AddErrors": true, "AddWarnings": true, "Merge": true, "MergeAsErrors": true,
+	"MergeAsWarnings": true, "mergeForField": true, "mergeForSlice": true, "mergeWithoutRootSchemata": true,
+	"addRootObjectSchemata": true, "addPropertySchemata": true, "addSliceSchemata": true, "cleared": true}
+
+func classifyResultInit(p *pkgInfo, rhs ast.Expr) string {
+	src := p.src(rhs)
+	switch {
+	case src == "new(Result)" || src == "&Result{}" || strings.HasPrefix(src, "&Result{"):
+		return "fresh"
+	case strings.HasSuffix(src, "BorrowResult()"):
+		return "fresh"
+	case src == "nil":
+		return "nil"
+	}
+	if c, ok := rhs.(*ast.CallExpr); ok {
+		cn := callName(c)
+		if strings.HasSuffix(cn, ".Validate") || strings.HasSuffix(cn, ".validate") {
+			return "child-answer"
+		}
+		return "call " + cn
+	}
+	if id, ok := rhs.(*ast.Ident); ok {
+		return "alias " + id.Name
+	}
+	return "expr " + src
+}
+
+func resultMutationFacts(p *pkgInfo) []resultMutationFact {
+	var out []resultMutationFact
+	fns := p.funcs()
+	keys := make([]string, 0, len(fns))
+	for k := range fns {
+		keys = append(keys, k)
+	}
+	sort.Strings(keys)
+	for _, k := range keys {
+		fd := fns[k]
+		if fd.Body == nil {
+			continue
+		}
+		// origins of every local identifier: all right-hand sides assigned to it in this function
+		origins := map[string][]string{}
+		addOrigin := func(name, o string) {
+			for _, e := range origins[name] {
+				if e == o {
+					return
+				}
+			}
+			origins[name] = append(origins[name], o)
+		}
+		if fd.Type.Params != nil {
+			for _, f := range fd.Type.Params.List {
+				for _, n := range f.Names {
+					addOrigin(n.Name, "param")
+				}
+			}
+		}
+		if fd.Type.Results != nil {
+			for _, f := range fd.Type.Results.List {
+				for _, n := range f.Names {
+					addOrigin(n.Name, "named-result")
+				}
+			}
+		}
+		if r := recvName(fd); r != "" {
+			addOrigin(r, "receiver")
+		}
+		ast.Inspect(fd.Body, func(n ast.Node) bool {
+			switch x := n.(type) {
+			case *ast.AssignStmt:
+				if len(x.Lhs) == len(x.Rhs) {
+					for i, l := range x.Lhs {
+						if id, ok := l.(*ast.Ident); ok {
+							addOrigin(id.Name, classifyResultInit(p, x.Rhs[i]))
+						}
+					}
+				} else if len(x.Rhs) == 1 {
+					for _, l := range x.Lhs {
+						if id, ok := l.(*ast.Ident); ok && id.Name != "_" {
+							addOrigin(id.Name, "multi "+classifyResultInit(p, x.Rhs[0]))
+						}
+					}
+				}
+			case *ast.ValueSpec:
+				for i, id := range x.Names {
+					if i < len(x.Values) {
+						addOrigin(id.Name, classifyResultInit(p, x.Values[i]))
+					} else {
+						addOrigin(id.Name, "zero")
+					}
+				}
+			case *ast.RangeStmt:
+				for _, e := range []ast.Expr{x.Key, x.Value} {
+					if id, ok := e.(*ast.Ident); ok && id.Name != "_" {
+						addOrigin(id.Name, "range "+exprPath(x.X))
+					}
+				}
+			}
+			return true
+		})
+		ast.Inspect(fd.Body, func(n ast.Node) bool {
+			c, ok := n.(*ast.CallExpr)
+			if !ok {
+				return true
+			}
+			sel, ok := c.Fun.(*ast.SelectorExpr)
+			if !ok || !mutatingResultMethods[sel.Sel.Name] {
+				return true
+			}
+			id, ok := sel.X.(*ast.Ident)
+			if !ok {
+				out = append(out, resultMutationFact{Func: k, Method: sel.Sel.Name, Recv: p.src(sel.X), Origin: "expr"})
+				return true
+			}
+			os := append([]string{}, origins[id.Name]...)
+			sort.Strings(os)
+			if len(os) == 0 {
+				os = []string{"package-level"}
+			}
+			out = append(out, resultMutationFact{Func: k, Method: sel.Sel.Name, Recv: id.Name, Origin: strings.Join(os, " | ")})
+			return true
+		})
+	}
+	// one row per (func, method, receiver, origin)
+	seen := map[resultMutationFact]bool{}
+	var uniq []resultMutationFact
+	for _, f := range out {
+		if !seen[f] {
+			seen[f] = true
+			uniq = append(uniq, f)
+		}
+	}
+	return uniq
+}
+
 // ------------------------------------------------------------ rendering
 
 func genFacts(p *pkgInfo) string {
@@ -640,6 +782,17 @@ func genFacts(p *pkgInfo) string {
 	for i, f := range sws {
 		fmt.Fprintf(&b, "  (%s, %s, %s)", leanStr(f.Func), leanStr(f.Lhs), leanBool(f.Guarded))
 		if i < len(sws)-1 {
+			b.WriteString(",")
+		}
+		b.WriteString("\n")
+	}
+	b.WriteString("]\n\n")
+	b.WriteString("/-- calls of mutating *Result methods: (function, method, receiver variable, where that variable comes from) -/\n")
+	b.WriteString("def resultMutations : List (String × String × String × String) := [\n")
+	rms := resultMutationFacts(p)
+	for i, f := range rms {
+		fmt.Fprintf(&b, "  (%s, %s, %s, %s)", leanStr(f.Func), leanStr(f.Method), leanStr(f.Recv), leanStr(f.Origin))
+		if i < len(rms)-1 {
 			b.WriteString(",")
 		}
 		b.WriteString("\n")
